@@ -2,6 +2,7 @@
 
 Correspondence: CVR.merge_cvrs / CVR.from_raire / CVR.from_raire_file (real CVR objects, objects reused across
 successive calls) against coq/theories/Merge.v.  Oracle: the property evaluated on the implementation's outputs."""
+import csv
 import itertools
 import os
 import tempfile
@@ -286,14 +287,29 @@ def oracle_merge(case):
 
 
 # ------------------------------------------------------------------ RAIRE
+QUOTING = ["{}, Bob", 'Ann "{}" Lee', " {}", "{} ", "{},", ",{}", '"{}"', "O'{}", "{};x", "a {} b"]
+
+
+def fancy(rng, name):
+    """an identifier that needs CSV quoting (embedded comma / quote / leading or trailing blank), or is left alone"""
+    return rng.choice(QUOTING).format(name) if rng.random() < 0.6 else name
+
+
 def gen_raire(rng, malformed=False):
     ncon = rng.randint(1, 3)
+    quoted = rng.random() < 0.35      # names as real exports have them: "Jones, Bob" (well-formed CSV needs quoting)
     contests = [f"{300 + j}" for j in range(ncon)]
     cand_sets = {c: [str(10 * (j + 1) + k) for k in range(rng.randint(2, 5))] for j, c in enumerate(contests)}
+    if quoted:
+        ren = {c: fancy(rng, "Mayor" + c) for c in contests}
+        cand_sets = {ren[c]: [fancy(rng, "C" + x) for x in v] for c, v in cand_sets.items()}
+        contests = [ren[c] for c in contests]
     rows = [[str(ncon)]]
     for c in contests:
         rows.append(["Contest", c, str(len(cand_sets[c]))] + cand_sets[c])
     bids = [f"{rng.choice(['1', '2', '99'])}-{rng.randint(1, 3)}" for _ in range(rng.randint(1, 4))]
+    if quoted:
+        bids = [fancy(rng, b) for b in bids]
     nb = rng.choice([0, 1, 2, 3, 5, 8])
     for _ in range(nb):
         c = rng.choice(contests)
@@ -360,7 +376,7 @@ def run_raire(skip, rows, phantom, wellformed, via_file):
             fd, path = tempfile.mkstemp(prefix="c18_", suffix=".raire", dir="/dev/shm")
             try:
                 with os.fdopen(fd, "w") as fh:
-                    fh.write("".join(",".join(r) + "\n" for r in rows))
+                    csv.writer(fh, lineterminator="\n").writerows(rows)       # well-formed CSV (quotes where needed)
                 cvrs, n_read, n_unique = CVR.from_raire_file(path)
             finally:
                 os.unlink(path)
@@ -536,7 +552,7 @@ def run(ctx, res):
                 "all tally-pool triples for three; generated lists of 1..7 real CVR objects over 1..3 ids (str/int/'' ids), votes over "
                 "4 contests x 4 candidates incl. empty votes / empty contests / later record omitting candidates, bool flags (80%) or "
                 "None/0/1/''/'x', tally pools incl. None, 0, '', '0', False, conflicting values; a quarter with two records sharing a votes / contest dict object; half of the lists are followed by a call on "
-                "the merged output plus new records and a call on the original objects again. RAIRE: 1..3 contests, 0..8 ballot rows, "
+                "the merged output plus new records and a call on the original objects again. RAIRE: files written with csv.writer, a third of the inputs with contest / candidate / ballot identifiers that need CSV quoting (embedded commas, quotes, leading / trailing blanks); 1..3 contests, 0..8 ballot rows, "
                 "repeated ballot ids, a contest repeated for one id, rows with no candidates, 25% malformed (short / empty row, repeated "
                 "candidate, declared header count smaller / larger than the contest lines); one third through a csv file. ORACLE ONLY: RAIRE "
                 "inputs of 300..1500 ballot rows grouped by contest (an id's contests far apart) or interleaved, half through a file, and "
